@@ -38,7 +38,7 @@ fn spec_for(prop: &str, tier: &str, seed: u64) -> RunSpec {
         prop: prop.to_string(),
         tier: tier.to_string(),
         seed,
-        cases: if thorough { 20000 } else { 400 },
+        cases: if thorough { 20000 } else { 1500 },
         workers: 16,
         cpu_budget_s: 30.0,
         wall_limit_s: if thorough { 3600.0 } else { 600.0 },
@@ -62,28 +62,29 @@ fn spec_for(prop: &str, tier: &str, seed: u64) -> RunSpec {
         "C06" => {
             s.rule = format!("{}every instance is run in the release and in the checked (overflow-checks, debug-assertions) build; non-trivial = every distinct instance (a full pipeline run)", gen_rule);
             s.variants = vec!["release".to_string(), "checked".to_string()];
+            s.cases = if thorough { 20000 } else { 1000 };
             s.crash_is_violation = true;
         }
         "C09" | "C10" | "C13" => {
             s.rule = "seeded random walks (30-200 operations) over the public modification API of Schedule, starting from the empty schedule, one-vehicle-per-trip and the min-cost-flow solution; after every Ok operation the full observable state is snapshotted and judged; non-trivial = distinct (instance, operation kind, argument shape) triples that returned Ok and changed the state; monitor_counters lists every covered shape cell".to_string();
-            s.cases = if thorough { 20000 } else { 400 };
+            s.cases = if thorough { 60000 } else { 6000 };
             s.min_nontrivial = 50;
         }
         "C08" => {
             s.rule = "instances with maintenance slots; the real build_local_search_solver(..).solve() runs on the depot-improved min-cost-flow solution while hook H1 records every accepted step; offline trace checker: recorded objective vectors = true (unserved, violation, vehicles, costs) recomputed by the reference model in that order, every step strictly lexicographically improving, chain gapless from the start solution to the returned result, result <= start, second run accepts nothing, and an independent scan of neighbors_of(result) finds nothing better. non-trivial = distinct instances whose search accepted >= 1 step".to_string();
-            s.cases = if thorough { 6000 } else { 250 };
+            s.cases = if thorough { 8000 } else { 1500 };
             s.cpu_budget_s = 60.0;
         }
         "C11" => {
             s.rule = "walks through RSSchedParallelNeighborhood::neighbors_of picking a uniformly random (not improving) candidate, from min-cost-flow, one-vehicle-per-trip and history-reached states, production and unlimited segment parameters, RAYON_NUM_THREADS in {1,2,4,16}, with concurrent generation on a shared base; every candidate is snapshotted and passes the complete C09 (recomputation) and C10 (structure) oracles, the base schedule is compared before/after. non-trivial = distinct (instance, walk prefix) states with a non-empty neighbourhood".to_string();
-            s.cases = if thorough { 6000 } else { 200 };
+            s.cases = if thorough { 6000 } else { 300 };
             s.cpu_budget_s = 60.0;
             s.crash_is_violation = true;
             s.rayon_threads = vec![1, 2, 4, 16];
         }
         "C16" => {
             s.rule = "one server::solve_instance call per generated instance (maintenance/depot heavy), hook H2 records the schedules bound after each stage and the optimiser's transitions, hook H1 the search steps; trace checker: start = depot-improved flow solution, search result = end of the step chain, optimised schedule carries T*, final schedule has the search result's activities, T* as cycles (as multisets of cyclic sequences) and end depots following T*, the JSON is the final schedule with T* as vehicleCycles and a truthful objective. non-trivial = distinct instances where the optimiser's cycles differ from the search result's (otherwise a dropped stage is unobservable)".to_string();
-            s.cases = if thorough { 8000 } else { 500 };
+            s.cases = if thorough { 10000 } else { 1500 };
             s.cpu_budget_s = 60.0;
             s.min_nontrivial = 10;
         }
@@ -117,11 +118,11 @@ fn spec_for(prop: &str, tier: &str, seed: u64) -> RunSpec {
         }
         "C14" => {
             s.rule = "instances with decoupled depot totals from the seeded generator; MinCostFlowSolver::solve() is observed through public getters and compared per vehicle type with an independent min-cost circulation (successive shortest paths, lexicographic (vehicles, cost)) over ALL connectable pairs; non-trivial = distinct instances whose start solution chains >= 2 activities in some tour".to_string();
-            s.cases = if thorough { 15000 } else { 500 };
+            s.cases = if thorough { 300000 } else { 20000 };
         }
         "C17" => {
             s.rule = "instances from the seeded generator (emphasis ties, non-metric, forbidden dead-heads); every public getter of the loaded Network is compared with the reference model, can_reach for ALL ordered node pairs, successors/predecessors for every node and type as sets; non-trivial = distinct instances containing >= 1 zero-slack pair and >= 1 pair with a location change".to_string();
-            s.cases = if thorough { 8000 } else { 400 };
+            s.cases = if thorough { 200000 } else { 10000 };
         }
         "C07" => s.rule = format!("{}non-trivial = distinct instances with a segment needing >= 2 vehicles", gen_rule),
         _ => {}
@@ -222,6 +223,18 @@ fn main() {
                 std::process::exit(1);
             }
             std::process::exit(0);
+        }
+        "solve" => {
+            // vmon solve <input.json> <output.json>: one isolated solve_instance call
+            let input: serde_json::Value = serde_json::from_slice(&std::fs::read(&args[2]).expect("read input")).expect("input json");
+            orch::install_panic_hook();
+            match orch::guard(|| server::solve_instance(input)) {
+                Ok(ans) => {
+                    std::fs::write(&args[3], serde_json::to_vec(&ans).unwrap()).expect("write answer");
+                    std::process::exit(0);
+                }
+                Err(_) => std::process::exit(3),
+            }
         }
         "gen" => {
             // vmon gen <profile> <seed> <max_dep>: print one instance (debugging aid)
